@@ -46,7 +46,8 @@ Inductive core_event :=
 | EReconstructAfterReset (target old : sha) (pathspec : bool)
 | ERemovePathAttributions (head : sha)
 | ESaveStash                                             (* save_stash_authorship_log for stash@{0} *)
-| ERestoreStash (stash : sha).
+| ERestoreStash (stash : sha)
+| ERestoreStashedVA (old new : sha).                     (* restore_stashed_va after pull --rebase --autostash *)
 
 Definition kind_of (e : core_event) : option rewrite_kind :=
   match e with
@@ -88,7 +89,8 @@ Inductive shape :=
 | SCommit (has_base : bool) | SCommitAmend | SRebaseStart (interactive : bool) | SRebaseComplete (interactive : bool) (n_orig n_new : nat)
 | SRebaseAbort | SCherryPickStart (n : nat) | SCherryPickComplete (n_src n_new : nat) | SCherryPickAbort
 | SReset (k : reset_kind) | SMergeSquash | SPreCommitCheckpoint | SHumanCheckpoint | SRenameWorkingLog
-| SDeleteWorkingLog | SReconstructAfterReset (pathspec : bool) | SRemovePathAttributions | SSaveStash | SRestoreStash.
+| SDeleteWorkingLog | SReconstructAfterReset (pathspec : bool) | SRemovePathAttributions | SSaveStash | SRestoreStash
+| SRestoreStashedVA.
 
 Definition shape_of (e : core_event) : shape :=
   match e with
@@ -110,6 +112,7 @@ Definition shape_of (e : core_event) : shape :=
   | ERemovePathAttributions _ => SRemovePathAttributions
   | ESaveStash => SSaveStash
   | ERestoreStash _ => SRestoreStash
+  | ERestoreStashedVA _ _ => SRestoreStashedVA
   end.
 
 Definition erase_shas (l : list core_event) : list shape := map shape_of l.
@@ -303,11 +306,12 @@ Definition pull_post_rewrite (st : side_state) (e : henv) : list core_event * si
       | Some old =>
           if old =? new_head then ([], clear_pull st)
           else
-            let rn := ERenameWorkingLog old new_head in
-            if e_noop_done e then ([rn], clear_pull st)
+            (* the working log is renamed BEFORE the noop / empty-mapping early returns (GenModes reads the order) *)
+            let rn := if pull_renames_before_early_exits then [ERenameWorkingLog old new_head] else [] in
+            if e_noop_done e then (rn, clear_pull st)
             else match e_map e with
-                 | ([], _) | (_, []) => ([rn], clear_pull st)
-                 | (os, ns) => ([rn; ERebaseComplete old new_head false os ns], clear_pull st)
+                 | ([], _) | (_, []) => (rn, clear_pull st)
+                 | (os, ns) => (rn ++ [ERebaseComplete old new_head false os ns], clear_pull st)
                  end
       end
   end.
@@ -556,7 +560,10 @@ Record outcome_facts := mkFacts {
   f_wl_pending : bool;            (* a working-log directory exists for the HEAD the command starts from *)
   f_uncheckpointed : bool;        (* the work tree differs from what the newest checkpoint recorded *)
   f_path_pending : bool;          (* the working log holds attribution for the checked-out path *)
-  f_detached : bool               (* HEAD is detached when the command starts: a move of HEAD updates no refs/heads/... *)
+  f_detached : bool;              (* HEAD is detached when the command starts: a move of HEAD updates no refs/heads/... *)
+  f_autostash_va : bool;          (* pull --rebase --autostash with pending attribution: the wrapper captured a VirtualAttributions *)
+  f_upstream_touches_pending : bool (* a file with pending attribution changes without a checkpoint before it is committed
+                                       (the pulled commits touch it, or a person edits it afterwards) *)
 }.
 
 (* core operations that are no-ops in the given repository: rename_working_log of a missing directory or
@@ -570,8 +577,17 @@ Definition live (f : outcome_facts) (e : core_event) : bool :=
   | _ => true
   end.
 
+(* carrying pending attribution from the old to the new HEAD: restore_stashed_va re-derives it by content,
+   rename_working_log moves the checkpoints verbatim; the two coincide as long as the pending files change only
+   under checkpoints until they are committed (K13 otherwise) *)
+Definition carry (f : outcome_facts) (e : core_event) : core_event :=
+  match e with
+  | ERestoreStashedVA o n => if f_upstream_touches_pending f then e else ERenameWorkingLog o n
+  | e => e
+  end.
+
 Definition effects (f : outcome_facts) (l : list core_event) : list core_event :=
-  map norm (filter (fun e => effectful e && live f e) l).
+  map (fun e => carry f (norm e)) (filter (fun e => effectful e && live f e) l).
 
 (* ------------------------------------------------------------------------------------------------
    wrapper: run_pre_command_hooks ++ run_post_command_hooks
@@ -699,7 +715,8 @@ Definition wrap_pull (rebase : bool) (f : outcome_facts) : list core_event :=
        | Some old, Some new =>
            if old =? new then []
            else if negb rebase then [ERenameWorkingLog old new]      (* was_fast_forward_pull *)
-           else match f_origs f, f_news f with
+           else (if f_autostash_va f then [ERestoreStashedVA old new] else []) ++
+                match f_origs f, f_news f with
                 | [], _ => []
                 | _, [] => []
                 | os, ns => [ERebaseComplete old new false os ns]
@@ -951,6 +968,19 @@ Definition inert_noise (fi : firing) : bool :=
   | _ => true
   end.
 
+(* hooks that do nothing even when the mask is off: the rebase state directory exists and no refs/stash moves *)
+Definition quiet_noise (fi : firing) : bool :=
+  e_rb (h_env fi) &&
+  match h_name fi with
+  | HN_pre_commit | HN_prepare_commit_msg | HN_commit_msg | HN_post_commit => true
+  | HN_reference_transaction =>
+      match h_args fi with
+      | ARefTx _ None _ _ _ => negb (ra_set (e_ra (h_env fi)))
+      | _ => false
+      end
+  | _ => false
+  end.
+
 Fixpoint chain (h : sha) (ms : list made) : bool :=
   match ms with
   | [] => true
@@ -1017,7 +1047,8 @@ Definition wf_firing (c : command_class) (f : outcome_facts) : bool :=
   | CPullFF => negb (f_exit_ok f) || (is_some (f_head f) && is_some (f_head_after f))
   | CPullRebase =>
       negb (f_in_progress f) && negb (f_in_progress_after f) && forallb inert_noise (f_noise f) && nz (f_co_head f)
-      && (match f_picks f with [] => (match f_noise f with [] => true | _ => false end) | _ => true end)
+      && (match f_picks f with [] => forallb quiet_noise (f_noise f) | _ => true end)
+      && (negb (f_autostash_va f) || f_wl_pending f)
       && (negb (f_exit_ok f) ||
           (is_some (f_head f) && is_some (f_head_after f) && is_some (f_co_head f)
            && (negb (f_uptodate f) || (opt_eqb (f_head_after f) (f_head f) && match f_picks f with [] => true | _ => false end))
@@ -1098,7 +1129,8 @@ Definition Known_C13 (c : command_class) (f : outcome_facts) : bool :=
   | CCheckoutPath => f_exit_ok f && f_path_pending f                                               (* K7 *)
   | CPullFF => false
   | CPullRebase =>
-      f_exit_ok f && (f_wl_pending f && negb (opt_eqb (f_head f) (f_head_after f))
+      f_exit_ok f && (f_wl_pending f && negb (opt_eqb (f_head f) (f_head_after f)) && negb (f_autostash_va f)   (* K12 *)
+                      || f_autostash_va f && f_upstream_touches_pending f
                       || (match f_picks f with [] => negb (f_uptodate f) && negb (opt_eqb (f_head_after f) (f_co_head f)) | _ => false end))
   end.
 
